@@ -47,6 +47,10 @@ NEUTRAL_DUNDERS = {"__init__", "__str__", "__repr__", "__post_init__",   # __pos
                    "__format__", "__doc__", "__slots__", "__annotations__", "__module__",
                    "__enter__", "__exit__", "__del__", "__sizeof__", "__dir__", "__class_getitem__"}
 COMMON = ("demeter/broker/", "demeter/_typing.py", "demeter/utils/", "demeter/__init__.py")
+# constants whose name states their value (confirmed by reading)
+from fractions import Fraction as _F
+NAMED_CONSTANTS = {("_typing", "DECIMAL_0"): _F(0), ("_typing", "DECIMAL_1"): _F(1), ("result.metrics.core", "DECIMAL_1"): _F(1),
+                   ("uniswap.helper", "Q96"): _F(2) ** 96, ("gmx._typing", "PRICE_PRECISION"): _F(10) ** 30}
 
 
 def _dec_name(d: ast.expr) -> str:
@@ -298,6 +302,43 @@ def world_rule(model: Model, res, scope: Tuple[str, ...] = (), rule: str = "R-WO
                 refuse.append(("W3", f.loc(), f.qualname, f"@{dn}",
                                f"{f.qualname} is wrapped by `@{dn}`, which is neither a modelled decorator nor a transparent wrapper: what a call of "
                                f"{f.name} does is no longer what its body says"))
+    # ---- W6 a constant whose NAME states its value means that value (code and references both read it by name, so a changed
+    #         value would be invisible to every identity check)
+    from fractions import Fraction
+
+    def fold(e):
+        if isinstance(e, ast.Constant) and isinstance(e.value, (int, float)) and not isinstance(e.value, bool):
+            return Fraction(str(e.value))
+        if isinstance(e, ast.Constant) and isinstance(e.value, str):
+            return Fraction(e.value)
+        if isinstance(e, ast.Call) and ast.unparse(e.func).split(".")[-1] in ("Decimal", "int", "float") and len(e.args) == 1:
+            return fold(e.args[0])
+        if isinstance(e, ast.BinOp) and isinstance(e.op, ast.Pow):
+            return fold(e.left) ** int(fold(e.right))
+        if isinstance(e, ast.BinOp) and isinstance(e.op, (ast.Mult, ast.Add, ast.Sub)):
+            l, r = fold(e.left), fold(e.right)
+            return {ast.Mult: l * r, ast.Add: l + r, ast.Sub: l - r}[type(e.op)]
+        if isinstance(e, ast.UnaryOp) and isinstance(e.op, ast.USub):
+            return -fold(e.operand)
+        raise ValueError(ast.unparse(e))
+
+    for (modname, cname), want in NAMED_CONSTANTS.items():
+        m = model.modules.get(model.pkg + "." + modname)
+        if m is None or cname not in m.consts:
+            continue
+        if not in_scope(m.relpath):
+            continue
+        n += 1
+        try:
+            got = fold(m.consts[cname])
+        except (ValueError, ZeroDivisionError, ArithmeticError):
+            refuse.append(("W6", f"{m.relpath}:{getattr(m.consts[cname], 'lineno', 0)}", f"{modname}.{cname}", cname,
+                           f"the constant {cname} = {ast.unparse(m.consts[cname])[:60]} cannot be folded"))
+            continue
+        if got != want:
+            findings.append(("W6", f"{m.relpath}:{getattr(m.consts[cname], 'lineno', 0)}", f"{modname}.{cname}", f"{cname} is not {want}",
+                             f"the shared constant `{cname} = {ast.unparse(m.consts[cname])[:50]}` no longer has the value its name states ({want}): every "
+                             f"formula that uses it by name - in the library and in the references alike - silently computes with {got}"))
     for kind, where, func, construct, msg in findings:
         res.ob(rule, f"{kind}: {func} {construct}", where, ok=False)
         res.find(rule, func, construct, where, msg)
